@@ -102,9 +102,9 @@ func genBGV(t *rapid.T) BGVCase {
 
 	c.BFV = rapid.IntRange(0, 3).Draw(t, "bfv") == 0
 	c.Warm = rapid.IntRange(0, 3).Draw(t, "warm") != 0
-	// one case in twelve has no auxiliary prime in use: parameters without P, or LevelP = -1 for keys and transformations
+	// one case in twenty-four has no auxiliary prime in use: parameters without P, or LevelP = -1 for keys and transformations
 	noP := 0
-	if !stress && rapid.IntRange(0, 11).Draw(t, "noP") == 0 {
+	if !stress && rapid.IntRange(0, 11).Draw(t, "noP") == 7 {
 		noP = 1 + rapid.IntRange(0, 1).Draw(t, "noPkind")
 		if noP == 1 {
 			c.P.P = nil
@@ -175,6 +175,9 @@ func genBGVRound(t *rapid.T, pre string, nQ, nP int, noP bool, T uint64, n int, 
 	}
 	c.OutExtra = rapid.IntRange(0, 2).Draw(t, pre+"outExtra")
 	c.Recv = recvKinds[rapid.IntRange(0, len(recvKinds)-1).Draw(t, pre+"recv")]
+	if pre != "" && rapid.Bool().Draw(t, pre+"recvPrev") {
+		c.Recv = "prev" // later rounds: half of the receivers are outputs of the previous round
+	}
 	c.GalSrc = []string{"lt", "func"}[rapid.IntRange(0, 1).Draw(t, pre+"galSrc")]
 	c.Seed = rapid.Uint64().Draw(t, pre+"seed")
 	return c
@@ -435,123 +438,180 @@ func runBGVRound(c BGVCase, ri int, env *bgvEnv, rec *h.Rec) (desc string, nontr
 	pt := bgv.NewPlaintext(params, c.CtLevel)
 	pt.Scale = params.NewScale(c.CtScale)
 	if err := ecd.Encode(x, pt); err != nil {
-		return h.Failf(tag+":encode-input", "%v", err)
+		return "", false, true, h.Failf(tag+":encode-input", "%v", err)
 	}
 	ct, err := enc.EncryptNew(pt)
 	if err != nil {
-		return h.Failf(tag+":encrypt-input", "%v", err)
+		return "", false, true, h.Failf(tag+":encrypt-input", "%v", err)
 	}
 
-	// transformations
+	// transformations and keys (inside the guard: without P or with an empty set already the construction may panic)
 	lts := make([]bgvlt.LinearTransformation, len(c.LTs))
 	models := make([]func([]uint64) []uint64, len(c.LTs))
 	var galEls []uint64
-	for i, l := range c.LTs {
-		var idxList []int
-		dmodel := map[int][]uint64{}
-		var diagonals interface{}
-		if l.Perm != nil {
-			var perm bgvlt.Permutation[uint64]
-			for _, pm := range l.Perm {
-				perm[pm.Row] = append(perm[pm.Row], bgvlt.PermutationMapping[uint64]{From: pm.From, To: pm.To, Scaling: permScaling(pm, T)})
-			}
-			d := perm.GetDiagonals(params.LogMaxSlots())
-			// the diagonals of a permutation: entry [To] of diagonal (From-To) mod n carries the scaling, everything else is zero
-			want := map[int][]uint64{}
-			for _, pm := range l.Perm {
-				k := ((pm.From-pm.To)%n + n) % n
-				if want[k] == nil {
-					want[k] = make([]uint64, 2*n)
+	var keys []*rlwe.GaloisKey
+	var setupErr error
+	build := func() (string, bool, bool, error) {
+		for i, l := range c.LTs {
+			var idxList []int
+			dmodel := map[int][]uint64{}
+			var diagonals interface{}
+			if l.Perm != nil {
+				var perm bgvlt.Permutation[uint64]
+				for _, pm := range l.Perm {
+					perm[pm.Row] = append(perm[pm.Row], bgvlt.PermutationMapping[uint64]{From: pm.From, To: pm.To, Scaling: permScaling(pm, T)})
 				}
-				want[k][pm.Row*n+pm.To] = permScaling(pm, T)
-			}
-			if len(d) != len(want) {
-				return h.Failf("C12:bgv:Permutation.GetDiagonals:index-set", "got %d diagonals, want %d", len(d), len(want))
-			}
-			for k, w := range want {
-				g, ok := d[k]
-				if !ok || len(g) != len(w) {
-					return h.Failf("C12:bgv:Permutation.GetDiagonals:index-set", "diagonal %d missing or of length %d (want %d)", k, len(g), len(w))
+				d := perm.GetDiagonals(params.LogMaxSlots())
+				// the diagonals of a permutation: entry [To] of diagonal (From-To) mod n carries the scaling, everything else is zero
+				want := map[int][]uint64{}
+				for _, pm := range l.Perm {
+					k := ((pm.From-pm.To)%n + n) % n
+					if want[k] == nil {
+						want[k] = make([]uint64, 2*n)
+					}
+					want[k][pm.Row*n+pm.To] = permScaling(pm, T)
 				}
-				for j := range w {
-					if g[j] != w[j] {
-						return h.Failf("C12:bgv:Permutation.GetDiagonals:entries", "diagonal %d entry %d: got %d want %d", k, j, g[j], w[j])
+				if len(d) != len(want) {
+					return "", false, true, h.Failf("C12:bgv:Permutation.GetDiagonals:index-set", "got %d diagonals, want %d", len(d), len(want))
+				}
+				for k, w := range want {
+					g, ok := d[k]
+					if !ok || len(g) != len(w) {
+						return "", false, true, h.Failf("C12:bgv:Permutation.GetDiagonals:index-set", "diagonal %d missing or of length %d (want %d)", k, len(g), len(w))
+					}
+					for j := range w {
+						if g[j] != w[j] {
+							return "", false, true, h.Failf("C12:bgv:Permutation.GetDiagonals:entries", "diagonal %d entry %d: got %d want %d", k, j, g[j], w[j])
+						}
 					}
 				}
-			}
-			for _, k := range residues(l.Diags, n) {
-				if _, ok := d[k]; ok {
-					idxList = append(idxList, k)
+				for _, k := range residues(l.Diags, n) {
+					if _, ok := d[k]; ok {
+						idxList = append(idxList, k)
+					}
 				}
-			}
-			if len(idxList) != len(d) {
-				idxList = bgvlt.Diagonals[uint64](d).DiagonalsIndexList()
-			}
-			diagonals = d
-			pms := l.Perm
-			models[i] = func(v []uint64) []uint64 { return bgvApplyPerm(pms, v, n, T) }
-		} else {
-			idxList = append(idxList, l.Diags...)
-			for _, k := range l.Diags {
-				dmodel[k] = bgvDiagEntries(l, k, n, T)
-			}
-			if c.Signed {
-				d := bgvlt.Diagonals[int64]{}
-				for k, v := range dmodel {
-					d[k] = centred(v, T)
+				if len(idxList) != len(d) {
+					idxList = bgvlt.Diagonals[uint64](d).DiagonalsIndexList()
 				}
 				diagonals = d
+				pms := l.Perm
+				models[i] = func(v []uint64) []uint64 { return bgvApplyPerm(pms, v, n, T) }
 			} else {
-				d := bgvlt.Diagonals[uint64]{}
-				for k, v := range dmodel {
-					d[k] = append([]uint64(nil), v...)
+				idxList = append(idxList, l.Diags...)
+				for _, k := range l.Diags {
+					dmodel[k] = bgvDiagEntries(l, k, n, T)
 				}
-				diagonals = d
+				if c.Signed {
+					d := bgvlt.Diagonals[int64]{}
+					for k, v := range dmodel {
+						d[k] = centred(v, T)
+					}
+					diagonals = d
+				} else {
+					d := bgvlt.Diagonals[uint64]{}
+					for k, v := range dmodel {
+						d[k] = append([]uint64(nil), v...)
+					}
+					diagonals = d
+				}
+				models[i] = func(v []uint64) []uint64 { return bgvApply(dmodel, v, n, T) }
 			}
-			models[i] = func(v []uint64) []uint64 { return bgvApply(dmodel, v, n, T) }
+			ltp := bgvlt.Parameters{
+				DiagonalsIndexList:        idxList,
+				LevelQ:                    l.LevQ,
+				LevelP:                    c.LevelP,
+				Scale:                     params.NewScale(l.Scale),
+				LogDimensions:             params.LogMaxDimensions(),
+				LogBabyStepGiantStepRatio: l.Ratio,
+			}
+			lts[i] = bgvlt.NewLinearTransformation(params, ltp)
+			switch d := diagonals.(type) {
+			case bgvlt.Diagonals[uint64]:
+				err = bgvlt.Encode(ecd, d, lts[i])
+			case bgvlt.Diagonals[int64]:
+				err = bgvlt.Encode(ecd, d, lts[i])
+			}
+			if err != nil {
+				return "", false, true, h.Failf("C12:bgv:Encode:error", "diags=%v ratio=%d: %v", idxList, l.Ratio, err)
+			}
+			if c.GalSrc == "func" {
+				galEls = append(galEls, lintrans.GaloisElements(params, idxList, n, l.Ratio)...)
+			} else {
+				galEls = append(galEls, lts[i].GaloisElements(params)...)
+			}
 		}
-		ltp := bgvlt.Parameters{
-			DiagonalsIndexList:        idxList,
-			LevelQ:                    l.LevQ,
-			LevelP:                    c.LevelP,
-			Scale:                     params.NewScale(l.Scale),
-			LogDimensions:             params.LogMaxDimensions(),
-			LogBabyStepGiantStepRatio: l.Ratio,
-		}
-		lts[i] = bgvlt.NewLinearTransformation(params, ltp)
-		switch d := diagonals.(type) {
-		case bgvlt.Diagonals[uint64]:
-			err = bgvlt.Encode(ecd, d, lts[i])
-		case bgvlt.Diagonals[int64]:
-			err = bgvlt.Encode(ecd, d, lts[i])
-		}
-		if err != nil {
-			return h.Failf("C12:bgv:Encode:error", "diags=%v ratio=%d: %v", idxList, l.Ratio, err)
-		}
-		if c.GalSrc == "func" {
-			galEls = append(galEls, lintrans.GaloisElements(params, idxList, n, l.Ratio)...)
-		} else {
-			galEls = append(galEls, lts[i].GaloisElements(params)...)
-		}
+		galEls = dedupU64(galEls)
+		lp := c.LevelP
+		keys = kgen.GenGaloisKeysNew(galEls, sk, rlwe.EvaluationKeyParameters{LevelP: &lp})
+		return "", false, false, nil
 	}
-	galEls = dedupU64(galEls)
-	lp := c.LevelP
-	keys := kgen.GenGaloisKeysNew(galEls, sk, rlwe.EvaluationKeyParameters{LevelP: &lp})
+	var bd string
+	var bstop bool
+	pk, pmsg := guard(panicKey, func() { bd, _, bstop, setupErr = build() })
+	_ = bd
+	if pk != "" {
+		return finding(pk, fmt.Sprintf("while building the transformations/keys: %s (lts=%s levelP=%d #P=%d)", pmsg, describeLTs(c.LTs), c.LevelP, len(c.P.P)))
+	}
+	if bstop {
+		if setupErr != nil && (noP || empty) {
+			// an error is an acceptable answer for a transformation lattigo cannot represent
+			rec.Classf("error-accepted(noP=%v,empty-set=%v)", noP, empty)
+			return "", false, true, nil
+		}
+		return "", false, true, setupErr
+	}
 	ks := newRecKeySet(keys)
+	evl := env.base.WithKey(ks)
+	// (WithKey used to drop the ScaleInvariant flag - a finding of C10 fixed by lattigo commit 75065df; the flag is not
+	// re-set here, so a regression shows as a level/scale failure of the sequential modes)
+	ltEval := bgvlt.NewEvaluator(evl)
 
-	base := bgv.NewEvaluator(params, nil, c.BFV)
-	if c.Warm {
-		// the evaluator has a history: its shared buffers are not zero (as in any real program)
-		wk := rlwe.NewMemEvaluationKeySet(nil, kgen.GenGaloisKeyNew(params.GaloisElement(1), sk))
-		wct, _ := enc.EncryptNew(pt)
-		if _, err := base.WithKey(wk).RotateColumnsNew(wct, 1); err != nil {
-			return h.Failf(tag+":warmup", "%v", err)
+	// receivers (before the expectations: a receiver below the output level caps the level, as for every evaluator method)
+	nOut := len(c.LTs)
+	if isSeq(c.Mode) {
+		nOut = 1
+	}
+	docLevel := func(i int) int { return minInt(c.CtLevel, c.LTs[i].LevQ) }
+	recv := make([]*rlwe.Ciphertext, nOut)
+	takesRecv := c.Mode == "eval" || c.Mode == "many" || c.Mode == "seq" || c.Mode == "manyLastInPlace"
+	recvClass := ""
+	if takesRecv {
+		recvClass = "fresh"
+		for i := range recv {
+			lvl := docLevel(i)
+			switch {
+			case c.Mode == "manyLastInPlace" && i == nOut-1:
+				recv[i] = ct
+			case c.Recv == "low":
+				recv[i] = bgv.NewCiphertext(params, 1, maxInt(0, lvl-1-c.OutExtra))
+				recvClass = "below-output-level"
+			case c.Recv == "prev" && i < len(env.prev) && env.prev[i] != ct:
+				recv[i] = env.prev[i]
+				recvClass = "previous-output"
+			case c.Recv == "deg2":
+				r := bgv.NewCiphertext(params, 2, minInt(maxLevel, lvl+c.OutExtra))
+				jr := h.NewSplitMix(c.Seed ^ 0xdead)
+				for _, v := range r.Value {
+					for li, q := range c.P.Q[:r.Level()+1] {
+						for j := range v.Coeffs[li] {
+							v.Coeffs[li][j] = jr.Uint64() % q
+						}
+					}
+				}
+				r.Scale = params.NewScale(1 + jr.Uint64()%(T-1))
+				recv[i] = r
+				recvClass = "degree-2-with-data"
+			default:
+				recv[i] = bgv.NewCiphertext(params, 1, minInt(maxLevel, lvl+c.OutExtra))
+			}
 		}
 	}
-	evl := base.WithKey(ks)
-	// (WithKey used to drop the ScaleInvariant flag - a finding of C10 fixed by lattigo commit 75065df; the flag is no
-	// longer re-set here, so a regression shows as a level/scale failure of the sequential modes)
-	ltEval := bgvlt.NewEvaluator(evl)
+	capLevel := func(i, lvl int) int {
+		if takesRecv && recv[i] != ct {
+			return minInt(lvl, recv[i].Level())
+		}
+		return lvl
+	}
 
 	// expected levels / scales / values and the hard noise bound
 	type stage struct {
@@ -561,14 +621,17 @@ func runBGVRound(c BGVCase, ri int, env *bgvEnv, rec *h.Rec) (desc string, nontr
 		ok    bool // noise bound far below the modulus
 	}
 	be := c.P.Xe.AbsBound()
-	alpha := c.LevelP + 1
-	logP := sumLog2(c.P.P[:c.LevelP+1])
+	alpha := maxInt(c.LevelP+1, 1)
+	logP := 0.0
+	if !noP {
+		logP = sumLog2(c.P.P[:c.LevelP+1])
+	}
 	logqd := maxDigitLog2(c.P.Q[:c.CtLevel+1], alpha)
 	ft := float64(T)
 	step := func(vin float64, nd int) float64 {
 		return float64(nd)*float64(N)*ft*vin + ft*math.Min(ksNoiseBound(nd, N, ft, be, c.CtLevel+1, alpha, logqd, logP), ksNoiseEnvelope(nd, N, float64(N)*ft, c.P.Xe.Sigma, c.CtLevel+1, alpha, logqd, logP))
 	}
-	fits := func(v float64, level int) bool { return math.Log2(v) < sumLog2(c.P.Q[:level+1])-2 }
+	fits := func(v float64, level int) bool { return !noP && math.Log2(v) < sumLog2(c.P.Q[:level+1])-2 }
 	nd := func(i int) int {
 		if c.LTs[i].Perm != nil {
 			return len(residues(c.LTs[i].Diags, n))
@@ -578,7 +641,7 @@ func runBGVRound(c BGVCase, ri int, env *bgvEnv, rec *h.Rec) (desc string, nontr
 	v0 := ft * (1 + be)
 	var exp []stage
 	if isSeq(c.Mode) {
-		cur, lvl, sc, v, ok := x, c.CtLevel, c.CtScale, v0, true
+		cur, lvl, sc, v, ok := x, capLevel(0, c.CtLevel), c.CtScale, v0, true
 		for i, l := range c.LTs {
 			lvl = minInt(lvl, l.LevQ)
 			cur = models[i](cur)
@@ -591,7 +654,7 @@ func runBGVRound(c BGVCase, ri int, env *bgvEnv, rec *h.Rec) (desc string, nontr
 			}
 			if lvl == 0 {
 				rec.Class("invalid-case:seq-levels")
-				return nil
+				return "", false, true, nil
 			}
 			q := c.P.Q[lvl]
 			sc = mulmod(mulmod(sc, l.Scale, T), powmod(q%T, T-2, T), T)
@@ -602,23 +665,27 @@ func runBGVRound(c BGVCase, ri int, env *bgvEnv, rec *h.Rec) (desc string, nontr
 		exp = []stage{{lvl, sc, cur, ok}}
 	} else {
 		for i, l := range c.LTs {
-			lvl := minInt(c.CtLevel, l.LevQ)
+			lvl := capLevel(i, docLevel(i))
 			v := step(v0, nd(i))
 			exp = append(exp, stage{lvl, mulmod(c.CtScale, l.Scale, T), models[i](x), fits(v, lvl)})
 		}
 	}
 
-	// evaluation
-	newOut := func(level int) *rlwe.Ciphertext {
-		return bgv.NewCiphertext(params, 1, minInt(maxLevel, level+c.OutExtra))
+	// snapshots of everything the call must leave alone
+	hct := hashCt(ct)
+	hlts := make([]uint64, len(lts))
+	for i := range lts {
+		hlts[i] = hashLT(lintrans.LinearTransformation(lts[i]))
 	}
+	hkeys := hashKeys(keys)
+
+	// evaluation
 	var outs []*rlwe.Ciphertext
-	pbuf := guardPBuffer(len(c.P.Q), c.LevelP, func() {
+	pk, pmsg = guard(panicKey, func() {
 		switch c.Mode {
 		case "eval":
-			o := newOut(exp[0].level)
-			err = ltEval.Evaluate(ct, lts[0], o)
-			outs = []*rlwe.Ciphertext{o}
+			err = ltEval.Evaluate(ct, lts[0], recv[0])
+			outs = recv
 		case "evalInPlace":
 			err = ltEval.Evaluate(ct, lts[0], ct)
 			outs = []*rlwe.Ciphertext{ct}
@@ -626,17 +693,14 @@ func runBGVRound(c BGVCase, ri int, env *bgvEnv, rec *h.Rec) (desc string, nontr
 			var o *rlwe.Ciphertext
 			o, err = ltEval.EvaluateNew(ct, lts[0])
 			outs = []*rlwe.Ciphertext{o}
-		case "many":
-			for i := range lts {
-				outs = append(outs, newOut(exp[i].level))
-			}
-			err = ltEval.EvaluateMany(ct, lts, outs)
+		case "many", "manyLastInPlace":
+			err = ltEval.EvaluateMany(ct, lts, recv)
+			outs = recv
 		case "manyNew":
 			outs, err = ltEval.EvaluateManyNew(ct, lts)
 		case "seq":
-			o := newOut(minInt(c.CtLevel, c.LTs[0].LevQ))
-			err = ltEval.EvaluateSequential(ct, lts, o)
-			outs = []*rlwe.Ciphertext{o}
+			err = ltEval.EvaluateSequential(ct, lts, recv[0])
+			outs = recv
 		case "seqInPlace":
 			err = ltEval.EvaluateSequential(ct, lts, ct)
 			outs = []*rlwe.Ciphertext{ct}
@@ -646,28 +710,46 @@ func runBGVRound(c BGVCase, ri int, env *bgvEnv, rec *h.Rec) (desc string, nontr
 			outs = []*rlwe.Ciphertext{o}
 		}
 	})
-	if pbuf != "" {
-		if rec.Known(keyPBuffer, pbuf) {
-			rec.Class("known=" + keyPBuffer)
-			return nil
-		}
-		return h.Failf(keyPBuffer, "%s", pbuf)
+	if pk != "" {
+		return finding(pk, fmt.Sprintf("%s (mode=%s lts=%s levelP=%d #Q=%d #P=%d)", pmsg, c.Mode, describeLTs(c.LTs), c.LevelP, len(c.P.Q), len(c.P.P)))
 	}
 	if err != nil {
 		if miss := ks.missingList(); len(miss) != 0 {
-			return h.Failf("C12:bgv:GaloisElements:insufficient:"+c.GalSrc, "keys for exactly the advertised elements %v generated, evaluation asked for %v: %v (lts=%s)", galEls, miss, err, describeLTs(c.LTs))
+			return "", false, true, h.Failf("C12:bgv:GaloisElements:insufficient:"+c.GalSrc, "keys for exactly the advertised elements %v generated, evaluation asked for %v: %v (lts=%s)", galEls, miss, err, describeLTs(c.LTs))
 		}
-		return h.Failf(tag+":error", "%v", err)
+		if noP || empty {
+			rec.Classf("error-accepted(noP=%v,empty-set=%v)", noP, empty)
+			return "", false, true, nil
+		}
+		return "", false, true, h.Failf(tag+":error", "%v (recv=%s)", err, recvClass)
 	}
 	if len(outs) != len(exp) {
-		return h.Failf(tag+":output-count", "got %d outputs, want %d", len(outs), len(exp))
+		return "", false, true, h.Failf(tag+":output-count", "got %d outputs, want %d", len(outs), len(exp))
+	}
+	if !inPlace(c.Mode) && hashCt(ct) != hct {
+		return "", false, true, h.Failf(tag+":input-ciphertext-modified", "the input ciphertext changed during an out-of-place evaluation (lts=%s)", describeLTs(c.LTs))
+	}
+	for i := range lts {
+		if hashLT(lintrans.LinearTransformation(lts[i])) != hlts[i] {
+			return "", false, true, h.Failf(tag+":transformation-modified", "linear transformation %d changed during the evaluation", i)
+		}
+	}
+	if hashKeys(keys) != hkeys {
+		return "", false, true, h.Failf(tag+":galois-key-modified", "a Galois key changed during the evaluation")
 	}
 
 	// classes
 	rec.Classf("mode=%s", c.Mode)
-	rec.Classf("logN=%d/logn=%d", c.P.LogN, bits.Len(uint(n))-1)
+	if ri == 0 {
+		rec.Classf("logN=%d/logn=%d", c.P.LogN, bits.Len(uint(n))-1)
+	} else {
+		rec.Classf("later-round/mode=%s", c.Mode)
+	}
 	rec.Classf("nLT=%d", len(c.LTs))
-	nontrivial := len(c.LTs) > 1
+	if recvClass != "" {
+		rec.Classf("receiver=%s", recvClass)
+	}
+	nontrivial = len(c.LTs) > 1
 	for _, l := range c.LTs {
 		neg, high := setClass(l.Diags, n)
 		rec.Classf("ratio=%d", l.Ratio)
@@ -684,16 +766,19 @@ func runBGVRound(c BGVCase, ri int, env *bgvEnv, rec *h.Rec) (desc string, nontr
 		if l.LevQ < maxLevel {
 			rec.Class("levelQ<max")
 		}
+		if c.LevelP >= 0 && c.LevelP < len(c.P.P)-1 {
+			rec.Classf("levelP<max/%s", map[bool]string{true: "naive", false: "bsgs"}[l.Ratio < 0])
+		}
 		nontrivial = nontrivial || neg || high || l.Ratio != 1 || l.LevQ < maxLevel
 	}
 	if 2*n < N {
-		rec.Class("sparse-packing")
+		rec.Classf("sparse-packing/mode=%s", c.Mode)
 	}
 	if c.BFV {
 		rec.Class("scale-invariant-evaluator")
 	}
-	if c.LevelP < len(c.P.P)-1 {
-		rec.Class("levelP<max")
+	if noP {
+		rec.Classf("levelP=-1(#P=%d):returned-without-error(values not compared)", len(c.P.P))
 	}
 
 	allOK := true
@@ -704,41 +789,48 @@ func runBGVRound(c BGVCase, ri int, env *bgvEnv, rec *h.Rec) (desc string, nontr
 	for i, o := range outs {
 		e := exp[i]
 		if o.Level() != e.level {
-			return h.Failf(tag+":output-level", "output %d at level %d, documented min(ct level, LevelQ)%s = %d", i, o.Level(), map[bool]string{true: " minus one per rescale"}[isSeq(c.Mode) && !c.BFV], e.level)
+			return "", false, true, h.Failf(tag+":output-level", "output %d at level %d, want min(ct level, LevelQ, receiver level)%s = %d (recv=%s)", i, o.Level(), map[bool]string{true: " minus one per rescale"}[isSeq(c.Mode) && !c.BFV], e.level, recvClass)
 		}
 		if got := o.Scale.Uint64(); got != e.scale {
-			return h.Failf(tag+":output-scale", "output %d has scale %d, want ct.Scale*lt.Scale%s = %d (mod t)", i, got, map[bool]string{true: "/q per rescale"}[isSeq(c.Mode) && !c.BFV], e.scale)
+			return "", false, true, h.Failf(tag+":output-scale", "output %d has scale %d, want ct.Scale*lt.Scale%s = %d (mod t) (recv=%s)", i, got, map[bool]string{true: "/q per rescale"}[isSeq(c.Mode) && !c.BFV], e.scale, recvClass)
 		}
 		if !e.ok {
 			allOK = false
-			rec.Class("noise-bound-not-below-Q(not compared)")
+			if !noP {
+				rec.Class("noise-bound-not-below-Q(not compared)")
+			}
 			continue
 		}
 		got := make([]uint64, 2*n)
 		if err := ecd.Decode(dec.DecryptNew(o), got); err != nil {
-			return h.Failf(tag+":decode", "%v", err)
+			return "", false, true, h.Failf(tag+":decode", "%v", err)
 		}
 		for j := range got {
 			if got[j] != e.want[j] {
 				key := tag + ":wrong-product"
-				if hasOnlyDiag0Naive(c.LTs, n) {
+				switch {
+				case empty:
+					key = keyEmpty
+				case hasOnlyDiag0Naive(c.LTs, n):
 					key = keyDiag0
-				} else if isMany(c.Mode) && i >= clobberedFrom(n1s, c.LTs, n) {
+				case isMany(c.Mode) && i >= clobberedFrom(n1s, c.LTs, n):
 					key = keyManyClobber
+				case recvClass == "degree-2-with-data":
+					key = tag + ":wrong-product:receiver-of-degree-2"
+				case recvClass == "previous-output" || recvClass == "below-output-level":
+					key = tag + ":wrong-product:receiver-" + recvClass
+				case ri > 0:
+					key = tag + ":wrong-product:later-round"
 				}
-				msg := fmt.Sprintf("output %d slot %d (row %d col %d): got %d want %d; lts=%s x[:4]=%v", i, j, j/n, j%n, got[j], e.want[j], describeLTs(c.LTs), x[:4])
-				if rec.Known(key, msg) {
-					rec.Class("known=" + key)
-					return nil
-				}
-				return h.Failf(key, "%s", msg)
+				return finding(key, fmt.Sprintf("round %d output %d slot %d (row %d col %d): got %d want %d; recv=%s lts=%s x[:4]=%v", ri, i, j, j/n, j%n, got[j], e.want[j], recvClass, describeLTs(c.LTs), x[:4]))
 			}
 		}
 	}
-	if nontrivial && allOK {
-		rec.NonTrivial(fmt.Sprintf("bgv/%s/bfv=%v/N=%d/n=%d/lp<max=%v/ctl<max=%v/%s", c.Mode, c.BFV, N, n, c.LevelP < len(c.P.P)-1, c.CtLevel < maxLevel, ltDescriptor(c.LTs, n, maxLevel)))
+	env.prev = outs
+	if allOK {
+		desc = fmt.Sprintf("bgv/%s/bfv=%v/N=%d/n=%d/lp<max=%v/ctl<max=%v/recv=%s/%s", c.Mode, c.BFV, N, n, c.LevelP < len(c.P.P)-1, c.CtLevel < maxLevel, recvClass, ltDescriptor(c.LTs, n, maxLevel))
 	}
-	return nil
+	return desc, nontrivial, false, nil
 }
 
 func describeLTs(lts []LT) string {
@@ -752,6 +844,6 @@ func describeLTs(lts []LT) string {
 	return sb.String()
 }
 
-var propBGV = h.NewProp("TestPropBGVLinearTransformation", h.Budget{Quick: 2500, Thorough: 60000}, genBGV, runBGV)
+var propBGV = h.NewProp("TestPropBGVLinearTransformation", h.Budget{Quick: 900, Thorough: 16000}, genBGV, runBGV)
 
 func TestPropBGVLinearTransformation(t *testing.T) { propBGV.Check(t) }
